@@ -232,7 +232,10 @@ static bool is_localhost(const struct sockaddr_storage *addr)
 		} else {
 			return false;
 		}
-	} else {
+	} else if (addr->ss_family == AF_UNIX) {
+		/* Unix domain sockets are only reachable from the local machine. */
+		return true;
+	} else if (addr->ss_family == AF_INET6) {
 		static const uint8_t mapped_ipv4_localhost_bytes[] =
 		    {0, 0, 0, 0, 0, 0, 0, 0, 0, 0, 0xff, 0xff, 0x7f, 0, 0, 1};
 		static const uint8_t localhost_bytes[] =
@@ -245,6 +248,8 @@ static bool is_localhost(const struct sockaddr_storage *addr)
 		} else {
 			return false;
 		}
+	} else {
+		return false;
 	}
 }
 
